@@ -33,11 +33,12 @@ Oracle (judge(), a function of the case and the observation only; pattern meanin
        exactly one '/'        -> THE call request form of the statement: authorised <=> method in {GET, POST} and the key
                                  verdict is ok and the object name matches the pattern.  Not authorised -> refusal.
                                  Authorised -> faithful forwarding (below).
-       several '/'            -> the statement does not say how extra segments split (the code cuts at the LAST slash
-                                 that still has a character behind it: greedy "(.+)/(.+)").  Only the safety half is
-                                 demanded: refusal is mandatory when the key is bad or NO split has an object matching
-                                 the pattern; otherwise either a clean refusal or an outcome that is faithful for at
-                                 least one split whose object matches.
+       several '/'            -> a member (attribute name) cannot contain '/', a Pyro object name can: when the text behind
+                                 the last slash is non-empty, (everything before it, it) is THE (object, member) and the
+                                 request is judged exactly like the one-slash form.  Paths ending in '/' or containing a
+                                 newline name no possible member: only the safety half is demanded (refusal is mandatory
+                                 when the key is bad or NO split has an object matching the pattern; otherwise either a
+                                 clean refusal or an outcome that is faithful for one split whose object matches).
   key verdict: no key configured (None or b"", what main() sets without -g) -> ok.  Otherwise header / $key parameter
     are each absent, right or wrong: right in one place and absent (or right) in the other -> ok; nothing right -> bad;
     one right and one wrong -> EITHER outcome is accepted (clean 403 or faithful forwarding).
@@ -54,9 +55,12 @@ Oracle (judge(), a function of the case and the observation only; pattern meanin
       anything else (unknown, private, dunder, unexposed) -> 500 + JSON error, nothing executed
     and every message the object daemon received is addressed to exactly the named object's id.
 """
+import array
 import atexit
+import fcntl
 import io
 import json
+import termios
 import threading
 import time
 import urllib.parse
@@ -79,7 +83,13 @@ ASSUMPTIONS = ["urllib.parse.parse_qs defines what 'the query parameters' of a q
                "the expose patterns are taken from a five-member family whose meaning is computed with startswith/equality",
                "object names in PATH_INFO contain no newline (only member names do)",
                "QUERY_STRING is always present in the environ (wsgiref always sets it)",
-               "messages received by the daemons are observed by replacing the name 'protocol' inside Pyro5.server by a delegating object"]
+               "messages received by the daemons are observed by replacing the name 'protocol' inside Pyro5.server by a delegating object",
+               "a path with several slashes whose last segment is non-empty names (everything before the last slash, last segment): a member "
+               "is an attribute name and cannot contain a slash, a Pyro object name can",
+               "the gateway process is stateless: a case may run an earlier request (other options / member / query / wrong key) first; "
+               "the judged request is held to the same oracle as without it",
+               "quiescence: all gateway connections are gone, or (a gateway that keeps connections) every serving thread is back waiting "
+               "for a message with an empty receive queue, observed twice 0.25 s after the request with no message recorded in between"]
 BUDGET_S = {"quick": 34, "thorough": 780}
 COMM_TIMEOUT = 30.0
 
@@ -215,12 +225,37 @@ class _ProtocolShim(object):
     def __init__(self, real, record):
         self.__dict__["_real"] = real
         self.__dict__["_record"] = record
+        self.__dict__["_waiting"] = {}          # id(connection) -> connection a server thread is currently waiting on for a message
+        self.__dict__["_wlock"] = threading.Lock()
 
     def __getattr__(self, name):
         return getattr(self._real, name)
 
+    def waiting_idle(self):
+        """-> number of server threads blocked waiting for a message on a connection with nothing in its receive queue, or
+        None when one of them has unread bytes (a request that is about to be taken up)"""
+        with self._wlock:
+            conns = list(self._waiting.values())
+        n = 0
+        for c in conns:
+            try:
+                buf = array.array("i", [0])
+                fcntl.ioctl(c.sock.fileno(), termios.FIONREAD, buf)
+                if buf[0] != 0:
+                    return None
+            except Exception:
+                return None
+            n += 1
+        return n
+
     def recv_stub(self, connection, accepted_msgtypes=None):
-        msg = self._real.recv_stub(connection, accepted_msgtypes)
+        with self._wlock:
+            self._waiting[id(connection)] = connection
+        try:
+            msg = self._real.recv_stub(connection, accepted_msgtypes)
+        finally:
+            with self._wlock:
+                self._waiting.pop(id(connection), None)
         try:
             self._record(connection, msg)
         except Exception:       # observation must never disturb the daemon
@@ -348,15 +383,37 @@ class _Env(object):
     def quiesce(self):
         base = self._ns_baseline()
 
-        def idle():
+        def oneway_running():
+            return any(t.name == "oneway-call" and t.is_alive() for t in threading.enumerate())
+
+        def gone():
             a, b = self._busy()
-            if a != 0 or b > base:
-                return False
-            return not any(t.name == "oneway-call" and t.is_alive() for t in threading.enumerate())
+            return a == 0 and b <= base and not oneway_running()        # every gateway connection is gone again
+
+        def parked():
+            """a gateway may keep its connections open: then every server thread serving one must be back waiting for the next
+            message with nothing unread on its socket (loopback delivery is synchronous: what was sent is in the queue)"""
+            with self.tlock:
+                n0 = len(self.traffic)
+            a, b = self._busy()
+            w = self._server.protocol.waiting_idle()
+            if w is None or w != a + b or (a, b) != self._busy() or oneway_running():
+                return None
+            with self.tlock:
+                return n0 if n0 == len(self.traffic) else None
         t0 = time.time()
         delay = 0.0001
-        while not idle():
-            if time.time() - t0 > 60.0:
+        last = None
+        while not gone():
+            waited = time.time() - t0
+            if waited > 0.25:
+                # only reached when connections outlive the request (never with a gateway that uses a new proxy per request)
+                now = parked()
+                if now is not None and now == last:
+                    self.persistent_connections = True
+                    return
+                last = now
+            if waited > 60.0:
                 raise HarnessError("daemons did not become idle again after a gateway request (busy=%r, baseline=%d)" % (self._busy(), base))
             time.sleep(delay)
             if delay < 0.01:
@@ -567,6 +624,12 @@ def expectation(case, query=None):
         return "index", None, c, kw, kv
     if kv == "bad":
         return "refuse", "key", c, kw, kv
+    if kind == "multi" and "\n" not in c["p"] and "/" not in c["splits"][-1][1]:
+        # several slashes: a member (a Python attribute name) can never contain a slash while a Pyro object name can, so the only
+        # split that can name a member at all is the one at the LAST slash: that is THE (object, member) of this request
+        c["splits"] = [c["splits"][-1]]
+        c["canonical"] = True
+        kind = "two"
     matching = [s for s in c["splits"] if literal_match(case["ns_regex"], s[0])]
     if not matching:
         return "refuse", "pattern", c, kw, kv
@@ -841,8 +904,20 @@ def _index_names(body):
 
 def run_case(case):
     env = _env()
+    out = []
+    for i, pre in enumerate(case.get("prelude") or []):
+        # earlier requests of the same gateway process (each judged on its own as well)
+        pre = {k: v for k, v in pre.items() if k != "prelude"}
+        for v in judge(pre, env.perform(pre), env.facts):
+            out.append(Violation(v.signature, "[request %d of the case's prelude] %s" % (i, v.what)))
     obs = env.perform(case)
-    return judge(case, obs, env.facts)
+    for v in judge(case, obs, env.facts):
+        if case.get("prelude") and not v.signature.startswith("C20:member:") and not v.signature.startswith("C20:key:"):
+            out.append(Violation(v.signature.replace("C20:", "C20:after-earlier-request:", 1), "[after %d earlier request(s): %s] %s" % (
+                len(case["prelude"]), "; ".join("%s %s opts=%r" % (p_["method"], p_["path"], p_.get("options")) for p_ in case["prelude"]), v.what)))
+        else:
+            out.append(v)
+    return out
 
 
 # ------------------------------------------------------------------------------------------------
@@ -965,12 +1040,28 @@ def case_strategy(draw):
     style = draw(st.integers(0, 4))
     query = build_query(pairs, style)
     hdr = {"absent": None, "right": right, "wrong": wrong, "empty": ""}[hstate]
-    return {
+    case = {
         "method": method, "path": path, "query": query, "hdr_key": hdr,
         "options": draw(st.sampled_from([None, None, None, None, "oneway", "oneway", "x,oneway", "Oneway", ""])),
         "corr": draw(st.sampled_from([None, None, None] + UUIDS)),
         "gateway_key": gk, "ns_regex": draw(st.sampled_from(HAPPY_PATTERN_POOL if happy else PATTERN_POOL)),
     }
+    pre = draw(st.integers(0, 9))
+    if happy and pre < 4:
+        # the gateway is stateless: what an EARLIER request did (same object, other options / member / query) must not matter
+        other = dict(case)
+        if pre == 0:
+            other["options"] = None if case["options"] == "oneway" else "oneway"
+        elif pre == 1:
+            other["path"] = build_path("two", "/", obj, draw(st.sampled_from(REAL_MEMBERS)), "", "", "", variant)
+            other["options"] = draw(st.sampled_from([None, "oneway"]))
+        elif pre == 2:
+            other["query"] = build_query([("a", "9"), ("$key", right)], 0)
+            other["options"] = "oneway"
+        else:
+            other["hdr_key"], other["query"] = wrong, "a=1"
+        case["prelude"] = [other]
+    return case
 
 
 # deterministic sweep: the authorisation cross product
@@ -1044,6 +1135,8 @@ def _labels(case):
             l.append("oneway")
     if _multi_valued(case):
         l.append("query:multi-valued")
+    if case.get("prelude"):
+        l.append("history:earlier-request-same-process")
     if any(_near(o, REGISTERED, _LOWER_REG) for o, m in c["splits"]):
         l.append("near-miss:object")
     return l
